@@ -175,6 +175,15 @@ func famC18(g *Gen, o *Out, n int, thorough bool) {
 			os.WriteFile(filepath.Join(tops[0], "disk.img"), img, 0o644)
 			os.WriteFile(filepath.Join(tops[0], "prealloc.dat"), make([]byte, 65536), 0o644)
 			os.WriteFile(filepath.Join(tops[0], "zeros-then-byte"), append(make([]byte, 40000), 1), 0o644)
+			// the same content more than once: whole files that are copies of each other (the archive stores
+			// the block once, the tree names it twice), and a file whose chunks repeat (600 KiB of zeros)
+			dup := g.bytes(20000)
+			os.MkdirAll(filepath.Join(tops[0], "copies", "deeper"), 0o755)
+			os.WriteFile(filepath.Join(tops[0], "copies", "a.bin"), dup, 0o644)
+			os.WriteFile(filepath.Join(tops[0], "copies", "deeper", "b.bin"), dup, 0o644)
+			os.WriteFile(filepath.Join(tops[0], "copies", "LICENSE"), []byte("same small text"), 0o644)
+			os.WriteFile(filepath.Join(tops[0], "copies", "deeper", "LICENSE"), []byte("same small text"), 0o644)
+			os.WriteFile(filepath.Join(tops[0], "sparse.img"), make([]byte, 600<<10), 0o644)
 		}
 		if thorough && c == 7 { // a directory wide enough to be HAMT-sharded by the builder
 			wide := filepath.Join(tops[0], "wide")
@@ -292,11 +301,15 @@ func famC18(g *Gen, o *Out, n int, thorough bool) {
 		}
 		o.Line(fmt.Sprintf("root want=%x", eroot.Bytes()), fmt.Sprintf("printed=%s header=%s", printed+okOrErrSuffix(rerr), hdrRoots))
 		// (3) extraction into an empty directory, from the file or from stdin
-		xsb := filepath.Join(sb, "x")
+		modes := []bool{g.pick(2) == 0}
+		if c < 2 {
+			modes = []bool{false, true} // the fixed trees are extracted both ways
+		}
+		for mi, fromStdin := range modes {
+		xsb := filepath.Join(sb, fmt.Sprintf("x%d", mi))
 		out := filepath.Join(xsb, "out")
 		os.MkdirAll(out, 0o755)
 		before := snapshot(xsb)
-		fromStdin := g.pick(2) == 0
 		var xse string
 		var xerr error
 		if fromStdin {
@@ -338,6 +351,7 @@ func famC18(g *Gen, o *Out, n int, thorough bool) {
 		o.Line(line, fmt.Sprintf("r=%s tree=%s outside=%s", res, entriesStr(after), outside))
 		o.Count(fmt.Sprintf("v%d/nowrap=%d/stdin=%d/tops=%d/%s", ver, b2i(noWrap), b2i(fromStdin), ntop, res))
 		o.Count(fmt.Sprintf("entries=%d", min(len(want)/5*5, 30)))
+		}
 		os.RemoveAll(sb)
 	}
 	os.RemoveAll(base)
